@@ -52,6 +52,11 @@ CHECKS = {
    text="Engine A: 7 (thorough 9) scenarios of 2-3 threads doing acquire/release/resize through upstreamLimiter.GetOrDefault on limits 1 and 2 (resizes 2->1, 1->2, 1->0, full bucket), every interleaving up to 2 (thorough 3) preemptions at statement/atomic-operation granularity: the call/return history must be explainable by a counter with limit (a refusal is always allowed, an acquire overlapping a resize may use either limit), and once everything has finished exactly M new requests are admitted (no leak, no phantom slot). Engine B: every history to depth 7 (thorough 9) of acquire, release (on the object the request was handed), Sync to {max 1, max 2, max 0, token bucket, exempt, schema absent}, adding/removing a second schema, exhausting the second schema or the same schema of another cluster: never more than M admitted-since-the-schema-became-max-in-flight unfinished, full capacity once all finished, no cross-schema or cross-cluster rejection. The canonical state includes the limiter's observed free capacity.",
    ref="DESIGN.md §6 C05",
    note="Trusted: shim semantics; instrumented copy of zoumo/golib max_inflight.go from the module cache; the ways a proxied request ends (upstream error, abort, panic) are exercised over the real handler chain by C04/C15, not here."),
+ "C06": dict(cat="model_checking", engine="enum+vsched",
+   technique="exhaustive enumeration of arrival/clock/reconfiguration step sequences through the real limiter on a driver-owned virtual clock (every window checked against burst+qps*T and the idle-refill lower bound) + stateless model checking of concurrent acquirers and a racing reconfiguration at a frozen clock",
+   text="Every sequence of up to 5 (thorough 7) steps over {acquire, advance 125 ms / 500 ms / 1 s / 10 s, Sync with the same schema, Sync with only another schema changed, reconfigure burst only (up, down), qps only, both} from 5 start configurations runs through upstreamLimiter.GetOrDefault().TryAcquire() with client-go's clock redirected to a virtual clock; in every stable segment every pair of admitted calls satisfies count <= burst + qps*T and every run of calls after an idle gap admits at least min(run, burst, floor(qps*gap)). Engine A: 2-3 threads x 2 acquires at a frozen clock on a full bucket (admitted == min(calls, burst)) and acquirers racing a reconfiguration (calls starting after it returned obey the new burst), all interleavings up to 2 (thorough 3) preemptions.",
+   ref="DESIGN.md §6 C06",
+   note="Trusted: instrumented copy of client-go util/flowcontrol/throttle.go (clock seam only), golang.org/x/time/rate as is, exact float arithmetic for the chosen values; 429 answers for rejected calls are checked over the handler chain in C04."),
 }
 def manifest():
     checks = []
